@@ -341,6 +341,16 @@ def harness_for(item):
             slB, slA = cB.channel_slices[cn], cA.channel_slices[old]
             for j in range(slB.stop - slB.start):
                 env.eq(f"expected[{cn},{j}]", eB[slB.start + j], eA[slA.start + off + j], key=f"{rw}:expected_data")
+        # ... including the auxiliary part (Asimov auxiliary data) of every constraint the rewrite carried over
+        if len(eA) == cA.nmaindata + cA.nauxdata and len(eB) == cB.nmaindata + cB.nauxdata:
+            for n in cB.auxdata_order:
+                kind = parmap.get(n, ("old", n, 0))
+                if kind[0] != "old" or kind[1] not in offA:
+                    continue
+                for j in range(cB.param_set(n).n_parameters):
+                    env.eq(f"expected-aux[{n},{j}]", eB[offB[n] + j], eA[offA[kind[1]] + kind[2] + j], key=f"{rw}:expected_data")
+        else:
+            env.fail("expected_data:length", f"{len(eA)} / {len(eB)} entries", key=f"{rw}:expected_data")
         # suggestions correspond (fits start from corresponding problems); the scaled POI is reported only
         iA, iB = cA.suggested_init(), cB.suggested_init()
         bA, bB = cA.suggested_bounds(), cB.suggested_bounds()
